@@ -496,9 +496,8 @@ class World:
         """B1: dropping the lazily built interpolator is transparent."""
         with self.node:
             e = self.eph
-            if hasattr(e, "_interp"):
-                e._method, e._order = e._interp.method, e._interp.order
-                del e._interp
+            if hasattr(e, "_interp") and hasattr(e, "_reset_interp"):  # private bookkeeping of Ephem: skipped when a refactoring has renamed it
+                e._reset_interp()
         self.since.add("cache")
         self.ctx.fault("cache_clear")
 
